@@ -52,7 +52,7 @@ theorem sortByIx_spec (o : List Bytes) (l : List (Bytes × Entry)) (hl : (l.map 
     · intro p; rw [mem_insertByIx, hm]; simp [List.mem_cons]
 
 /-- all stored versions are non-negative (so no entry is at the in-conflict marker) -/
-def VerInv (db : Db) : Prop := ∀ k e, AL.get? db.map k = some e → 0 ≤ e.version
+def VerInv (db : Db) : Prop := ∀ k e, AL.get? db.map k = some e → 0 ≤ e.version ∧ e.version ≤ 2147483647
 
 structure Db.WF (db : Db) : Prop where
   nodup : AL.NoDupKeys db.map
@@ -60,7 +60,7 @@ structure Db.WF (db : Db) : Prop where
   ver : VerInv db
 
 theorem verInv_setValueVersion (db : Db) (k v : Bytes) (ver : Int) (st : Status) (va ka op : Nat)
-    (h : VerInv db) (hv : 0 ≤ ver) : VerInv (db.setValueVersion k v ver st va ka op) := by
+    (h : VerInv db) (hv : 0 ≤ ver ∧ ver ≤ 2147483647) : VerInv (db.setValueVersion k v ver st va ka op) := by
   intro k' e hg
   simp only [Db.setValueVersion, AL.get?_put] at hg
   split at hg
@@ -139,5 +139,68 @@ theorem snapshotDb_view (db : Db) (fs : Fs) (reclaim : Bool) (order : List Bytes
     have := (hm p).mp hp
     exact AL.get?_of_mem_noDup db.map p.1 p.2 hw.nodup (List.mem_filter.mp this).1
   exact snapFold_spec reclaim db.name _ _ hn hget hw
+
+
+/-- entries keep their value and version through a snapshot; only status, addresses and op id move -/
+def SameData (m m' : KV) : Prop :=
+  ∀ k, match AL.get? m k, AL.get? m' k with
+    | some x, some x' => x'.version = x.version ∧ x'.value = x.value
+    | none, none => True
+    | _, _ => False
+
+theorem sameData_refl (m : KV) : SameData m m := by
+  intro k; cases AL.get? m k <;> simp
+
+theorem sameData_trans {a b c : KV} (h1 : SameData a b) (h2 : SameData b c) : SameData a c := by
+  intro k
+  have := h1 k; have := h2 k
+  cases ha : AL.get? a k <;> cases hb : AL.get? b k <;> cases hc : AL.get? c k <;> simp_all
+
+theorem snapKey_sameData (reclaim : Bool) (name : Bytes) (s : SnapSt) (k : Bytes) (e : Entry)
+    (hg : AL.get? s.db.map k = some e) : SameData s.db.map (snapKey reclaim name s k e).db.map := by
+  have key : ∀ (va ka op : Nat), SameData s.db.map (s.db.setValueVersion k e.value e.version .ok va ka op).map := by
+    intro va ka op k'
+    simp only [Db.setValueVersion, AL.get?_put]
+    by_cases h : k = k'
+    · subst h; simp [hg]
+    · simp only [h, if_false]; cases AL.get? s.db.map k' <;> simp
+  unfold snapKey
+  cases hst : e.state with
+  | ok => cases reclaim <;> simp only [] <;> first | exact key _ _ _ | exact sameData_refl _
+  | new => exact key _ _ _
+  | updated => cases reclaim <;> simp only [] <;> exact key _ _ _
+  | deleted => cases reclaim <;> simp only [] <;> exact sameData_refl _
+
+theorem snapFold_sameData (reclaim : Bool) (name : Bytes) :
+    ∀ (todo : List (Bytes × Entry)) (s : SnapSt),
+      (todo.map (·.1)).Nodup → (∀ p ∈ todo, AL.get? s.db.map p.1 = some p.2) → s.db.WF →
+      SameData s.db.map (todo.foldl (fun s (p : Bytes × Entry) => snapKey reclaim name s p.1 p.2) s).db.map := by
+  intro todo
+  induction todo with
+  | nil => intro s _ _ _; exact sameData_refl _
+  | cons p ps ih =>
+    intro s hn hget hw
+    simp only [List.map_cons, List.nodup_cons] at hn
+    simp only [List.foldl_cons]
+    obtain ⟨_, hw', hother⟩ := snapKey_spec reclaim name s p.1 p.2 (hget p (by simp)) hw
+    have hget' : ∀ q ∈ ps, AL.get? (snapKey reclaim name s p.1 p.2).db.map q.1 = some q.2 := by
+      intro q hq
+      rw [hother q.1 (fun h => hn.1 (List.mem_map.mpr ⟨q, hq, h⟩))]
+      exact hget q (by simp [hq])
+    exact sameData_trans (snapKey_sameData reclaim name s p.1 p.2 (hget p (by simp))) (ih _ hn.2 hget' hw')
+
+theorem snapshotDb_sameData (db : Db) (fs : Fs) (reclaim : Bool) (order : List Bytes) (clock : Nat) (hw : db.WF) :
+    SameData db.map (snapshotDb db fs reclaim order clock).1.map := by
+  unfold snapshotDb
+  simp only []
+  have hsub : ((db.map.filter fun (x : Bytes × Entry) => x.2.state != .ok || reclaim).map (·.1)).Nodup :=
+    List.Nodup.sublist (List.Sublist.map _ List.filter_sublist) hw.nodup
+  obtain ⟨hn, hm⟩ := sortByIx_spec order _ hsub
+  have hget : ∀ p ∈ (db.map.filter fun (x : Bytes × Entry) => x.2.state != .ok || reclaim).foldr (insertByIx order) [],
+      AL.get? db.map p.1 = some p.2 := by
+    intro p hp
+    have := (hm p).mp hp
+    exact AL.get?_of_mem_noDup db.map p.1 p.2 hw.nodup (List.mem_filter.mp this).1
+  exact snapFold_sameData reclaim db.name _ ⟨db, _, _, _, clock⟩ hn hget hw
 
 end Nun
